@@ -63,8 +63,9 @@ def d1_copies(ctx, ic, ii):
                'every yield of iterchunks lies inside the `with <opener>` block (map held across yields)',
                detail='a yield outside the context: the map is closed while the generator is suspended')
     # the slice yielded is ar[a:b] with (a, b) the loop targets bound from iterindices
-    loops = [n for n in own_nodes(ic.node) if isinstance(n, ast.For) and isinstance(n.iter, ast.Call)
-             and any(t is ii for k, t in ctx.R.resolve_call(n.iter, ic) if k == 'repo')]
+    from ..pathcond import inline as _inl0
+    loops = [n for n in own_nodes(ic.node) if isinstance(n, ast.For) and isinstance(_inl0(ic, n.iter), ast.Call)
+             and any(t is ii for k, t in ctx.R.resolve_call(_inl0(ic, n.iter), ic) if k == 'repo')]
     ok = False
     a = b = None
     if loops and isinstance(loops[0].target, ast.Tuple) and len(loops[0].target.elts) == 2:
